@@ -61,6 +61,89 @@ pub fn linear<P: Program, S: Source>(s: &mut S, p: &P, leaves: &[Leaf]) {
     forget((l1, n1, l2, n2, l3, n3));
 }
 
+/// linearity on ONE graph: three passes over the same nodes (gradient taken out in between)
+/// seeded s1, s2 and alpha*s1 + beta*s2
+pub fn linear_same_graph<P: Program, S: Source>(s: &mut S, p: &P, leaves: &[Leaf], inexact: bool) {
+    let mut vals: Vec<Vec<Float>> = Vec::with_capacity(leaves.len());
+    for l in leaves {
+        vals.push(s.vals(crate::refmodel::numel(l.d), l.dom));
+    }
+    let (ls, ns) = instance(p, leaves, &vals);
+    let root = &ns[ns.len() - 1];
+    let n = root.values().len();
+    let s1 = s.vals(n, Dom::D4);
+    let s2 = s.vals(n, Dom::D4);
+    let alpha = s.pick(3) as Float;
+    let beta = s.pick(3) as Float;
+    let mut s3 = Vec::with_capacity(n);
+    for j in 0..n {
+        s3.push(alpha * s1[j] + beta * s2[j]);
+    }
+    let d = root.dimensions().to_vec();
+    let mut g: Vec<Vec<Vec<Float>>> = Vec::with_capacity(3);
+    for seed in [s1, s2, s3] {
+        root.backward(Some(Array::from((d.clone(), seed))));
+        let mut per_leaf = Vec::with_capacity(leaves.len());
+        for (i, l) in leaves.iter().enumerate() {
+            if l.tracked {
+                let taken = ls[i].replace_gradient();
+                chk!(taken.is_some(), "[grad:missing] a tracked leaf received no gradient");
+                per_leaf.push(match taken.as_ref() {
+                    Some(a) => a.values().to_vec(),
+                    None => Vec::new(),
+                });
+                forget(taken);
+            } else {
+                per_leaf.push(Vec::new());
+            }
+        }
+        g.push(per_leaf);
+    }
+    for (i, l) in leaves.iter().enumerate() {
+        if !l.tracked {
+            continue;
+        }
+        for k in 0..g[0][i].len() {
+            chk!(
+                same(g[2][i][k], alpha * g[0][i][k] + beta * g[1][i][k], inexact),
+                "[c17:linear] gradient for alpha*s1 + beta*s2 is not alpha*g(s1) + beta*g(s2)"
+            );
+        }
+    }
+    witness();
+    forget((ls, ns));
+}
+
+/// two unseeded passes on results of different dimensions but equal element count: each gets
+/// the ones of its own shape
+pub fn default_seed_two_shapes<S: Source>(s: &mut S) {
+    let a = mk(s, &[1, 2], Dom::D4).tracked();
+    let b = mk(s, &[2, 1], Dom::D4).tracked();
+    let w = mk(s, &[2], Dom::D4);
+    let r1 = -&a;
+    r1.backward(None);
+    // [2,1] * [2] -> [2,2]: the result's dimensions differ from r1's, the gradient is summed over rows of ones
+    let r2 = &b * &w;
+    let r3 = -&b;
+    r3.backward(None);
+    r2.backward(None);
+    let ga = a.gradient();
+    let gb = b.gradient();
+    chk!(ga.is_some() && gb.is_some(), "[grad:missing] a tracked leaf received no gradient");
+    if let (Some(ga), Some(gb)) = (ga.as_ref(), gb.as_ref()) {
+        chk!(dims_eq(ga.dimensions(), &[1, 2]) && dims_eq(gb.dimensions(), &[2, 1]), "[grad:dims] gradient dimensions differ from the array's");
+        let wsum = w.values()[0] + w.values()[1];
+        for k in 0..2 {
+            chk!(ga.values()[k] == -1.0, "[c17:default] omitted seed and ones seed give different gradients");
+            chk!(gb.values()[k] == -1.0 + wsum, "[c17:default] omitted seed and ones seed give different gradients");
+        }
+    }
+    witness();
+    std::mem::forget(ga);
+    std::mem::forget(gb);
+    forget((a, b, w, r1, r2, r3));
+}
+
 /// `backward(None)` gives the same gradients as an explicit seed of ones
 pub fn default_seed<P: Program, S: Source>(s: &mut S, p: &P, leaves: &[Leaf]) {
     let mut vals: Vec<Vec<Float>> = Vec::with_capacity(leaves.len());
